@@ -29,6 +29,7 @@ def run(ctx):
                  "statements inside a data doc action", "harness/faults.py wrapper (GRIST_VERIF_WRAP=1)"],
     name="fault", plan=PLAN)
   out["level"] = LEVEL
+  bundle_model(ctx, out)
   # C08 after rollback is part of the statement ("its internal schema still matches the metadata")
   res = shared.get(ctx, name="fault", plan=PLAN)
   out["violations"] += [v for v in shared.clause_violations(ctx, res, "C08.", shared.n_bundles_fn(ctx, PLAN))
@@ -36,6 +37,86 @@ def run(ctx):
   return out
 
 
+def bundle_model(ctx, out):
+  """
+  S->C: Bundle.tla / BundleSem.tla (bundle processing with a fault at every doc-action boundary, undo and
+  redo; invariants FailedLeavesNoTrace, QuietAfterFailure, ReplayFaithful, UndoRestores, RedoReproduces,
+  DirectParallel, CalcNeverDirect, AlwaysRecalculated) checked by TLC from every small document; the
+  (document, bundle) cases it enumerates are run on the real engine - unfaulted and with a fault at every
+  real doc-action boundary and rebuild_usercode call - and judged by Trace_Bundle against the model.
+  """
+  import json, random   # pylint: disable=import-outside-toplevel,multiple-imports
+  import corpus, tlc    # pylint: disable=import-outside-toplevel,multiple-imports
+  cfg = "MC_Bundle_quick.cfg" if ctx.quick else "MC_Bundle_thorough.cfg"
+  cases_file = os.path.join(ctx.workdir, "bundle-cases.json")
+  res = tlc.run_model("MC_Bundle", cfg, ctx.workdir, workers=8, timeout=3000, env_extra={"OUT_FILE": cases_file},
+                      coverage=False)
+  if res["rc"] != 0 or res["violated"]:
+    raise tlc.MachineryError("Bundle design model failed:\n" + res["out"][-3000:])
+  spec = json.load(open(cases_file))
+  cases = spec["cases"]
+  n_all = len(cases)
+  want = 400 if ctx.quick else 6000
+  if len(cases) > want:
+    cases = random.Random(ctx.seed).sample(cases, want)
+  n = 16
+  args = []
+  for i in range(n):
+    p = os.path.join(ctx.workdir, "bundle-in-%02d.json" % i)
+    json.dump({"rows": spec["rows"], "cases": cases[i::n]}, open(p, "w"))
+    args.append({"inp": p, "out": os.path.join(ctx.workdir, "bundle-res-%02d.json" % i)})
+  corpus.run_workers("fn_bundle.py", args)
+  files = [a["out"] for a in args]
+  tlc.validate_shards("Trace_Bundle", files, ctx.workdir)
+  runs = 0
+  fired = 0
+  for f in files:
+    rs = json.load(open(f))["cases"]
+    for b in json.load(open(f + ".verdict.json")):
+      cs = rs[b["i"] - 1]
+      for cl in b["c"]:
+        out["violations"].append({"clause": cl, "what": "bundle model case d=%s uas=%s" % (cs["d"], cs["uas"]),
+                                  "case": {"d": cs["d"], "uas": cs["uas"], "rows": spec["rows"]}})
+    for cs in rs:
+      runs += len(cs["runs"])
+      fired += sum(1 for r in cs["runs"] if r["fired"])
+  if fired == 0:
+    raise tlc.MachineryError("vacuity: no injected fault fired in the bundle-model binding")
+  # binding self-test: a faulted run that left a trace must be rejected
+  st = json.load(open(files[0]))
+  for cs in st["cases"]:
+    hit = [r for r in cs["runs"] if r["fired"]]
+    if hit:
+      bad = json.loads(json.dumps(cs))
+      r = [r for r in bad["runs"] if r["fired"]][0]
+      r["doc"]["a"] = [5 for _ in r["doc"]["a"]]
+      p = os.path.join(ctx.workdir, "bundle-selftest.json")
+      json.dump({"rows": st["rows"], "cases": [bad]}, open(p, "w"))
+      v, _ = tlc.validate_shards("Trace_Bundle", [p], ctx.workdir, parallel=1)
+      if not v:
+        raise tlc.MachineryError("self-test: corrupted faulted run accepted by Trace_Bundle")
+      break
+  out["states"] += res["distinct"] + len(cases)
+  out["transitions"] = out.get("transitions", 0) + res["generated"] + len(cases)
+  out["evaluations"] += runs
+  out["traces_validated_against_impl"] += len(cases)
+  out["extra"]["bundle_model"] = {"cfg": cfg, "distinct_states": res["distinct"], "cases_enumerated": n_all,
+                                  "cases_run": len(cases), "engine_runs": runs, "faults_fired": fired}
+  ctx.log("Bundle model: %d states, %d of %d cases run (%d engine runs, %d faults fired)" % (
+    res["distinct"], len(cases), n_all, runs, fired))
+
+
 def replay(ctx, data):
+  if "case" in data:
+    import json   # pylint: disable=import-outside-toplevel
+    import corpus, tlc    # pylint: disable=import-outside-toplevel,multiple-imports
+    os.environ["GRIST_VERIF_WRAP"] = "1"
+    p = os.path.join(ctx.workdir, "in.json")
+    json.dump({"rows": data["case"]["rows"], "cases": [{"d": data["case"]["d"], "uas": data["case"]["uas"]}]},
+              open(p, "w"))
+    o = os.path.join(ctx.workdir, "res.json")
+    corpus.run_workers("fn_bundle.py", [{"inp": p, "out": o}])
+    v, _ = tlc.validate_shards("Trace_Bundle", [o], ctx.workdir, parallel=1)
+    return {"violations": [{"clause": c, "what": str(data["case"]), "case": data["case"]} for b in v for c in b["c"]]}
   os.environ["GRIST_VERIF_WRAP"] = "1"
   return _shared.replay_clause(ctx, data, "C0")
